@@ -317,8 +317,12 @@ func (o EOp) Line() string {
 		return fmt.Sprintf("arm %s %d", o.What, o.K)
 	case "obs":
 		return "obs " + strings.Join(o.Args, " ")
-	case "haslink", "roles", "users":
+	case "haslink", "roles", "users", "iroles":
 		return o.Kind + " " + o.PType + " " + proto.EncRule(o.Args)
+	case "iusersrole", "igrant", "iusers":
+		return o.Kind + " " + proto.EncRule(o.Args)
+	case "iperms":
+		return "iperms " + o.What + " " + o.PType + " " + proto.EncRule(o.Args)
 	}
 	panic("bad op " + o.Kind)
 }
@@ -366,6 +370,18 @@ func encSet(xs []string) string {
 		}
 	}
 	return strings.Join(out, " ")
+}
+
+func encSortedDup(xs []string) string {
+	if len(xs) == 0 {
+		return "-"
+	}
+	enc := make([]string, len(xs))
+	for i, x := range xs {
+		enc[i] = proto.Enc(x)
+	}
+	sort.Strings(enc)
+	return strings.Join(enc, " ")
 }
 
 func encLog(xs []string) string {
@@ -638,6 +654,48 @@ func (s *Sess) Exec(o EOp) (obs string) {
 			return "err"
 		}
 		return encSet(rs)
+	case "iroles":
+		rs, err := e.GetNamedImplicitRolesForUser(o.PType, o.Args[0], o.Args[1:]...)
+		if err != nil {
+			return "err"
+		}
+		return encSet(rs)
+	case "iusersrole":
+		rs, err := e.GetImplicitUsersForRole(o.Args[0], o.Args[1:]...)
+		if err != nil {
+			return "err"
+		}
+		return encSortedDup(rs)
+	case "iperms":
+		ps, err := e.GetNamedImplicitPermissionsForUser(o.What, o.PType, o.Args[0], o.Args[1:]...)
+		if err != nil {
+			return "err"
+		}
+		return "L " + proto.EncRules(ps)
+	case "igrant":
+		// does a permission listed for the user grant the request?
+		tail := o.Args[1:]
+		var dom []string
+		if s.MS.GCount["g"] > 2 {
+			dom = tail[:1]
+		}
+		ps, err := e.GetImplicitPermissionsForUser(o.Args[0], dom...)
+		if err != nil {
+			return "err"
+		}
+		granted := false
+		for _, perm := range ps {
+			if len(perm) > 0 && strings.Join(perm[1:], "\x01") == strings.Join(tail, "\x01") && len(perm[1:]) == len(tail) {
+				granted = true
+			}
+		}
+		return proto.Bool(granted)
+	case "iusers":
+		us, err := e.GetImplicitUsersForPermission(o.Args...)
+		if err != nil {
+			return "err"
+		}
+		return "L " + encSet(us)
 	case "users":
 		rm := e.GetNamedRoleManager(o.PType)
 		if rm == nil {
